@@ -93,12 +93,16 @@ def _prepare_parent(prop):
         pristine.client().ensure_started()  # children inherit the pipes; one child at a time talks to it
 
 
-def _chunk_body(prop, verif_seed, tier, indices, want_plans):
+def _chunk_body(prop, verif_seed, tier, indices, want_plans, per_run_timeout=None):
     from simkit import rng
     engine = load_engine(prop)
     out = []
     done = []
     for i in indices:
+        if per_run_timeout:
+            # per-run watchdog: a run that hangs kills this child after per_run_timeout seconds (the driver reports a harness error)
+            faulthandler.cancel_dump_traceback_later()
+            faulthandler.dump_traceback_later(per_run_timeout, exit=True)
         plan = engine.generate(rng.run_seed(verif_seed, prop, tier, i), i, tier)
         res = execute_guarded(engine, plan)
         res['index'] = i
@@ -113,7 +117,7 @@ def _chunk_body(prop, verif_seed, tier, indices, want_plans):
 def run_chunk(prop, verif_seed, tier, indices, timeout_s, want_plans=()):
     """one chunk = one forked child = one deterministic multi-run history starting from the pristine state"""
     _prepare_parent(prop)
-    return run_in_child(lambda: _chunk_body(prop, verif_seed, tier, indices, want_plans), timeout_s * max(1, len(indices)))
+    return run_in_child(lambda: _chunk_body(prop, verif_seed, tier, indices, want_plans, per_run_timeout=timeout_s), timeout_s * max(1, len(indices)))
 
 
 def execute_sequence(prop, plans, timeout_s, keep_events=False):
